@@ -81,6 +81,13 @@ ENGINES = [
 ]
 if 'ENGINES_EXTRA' in globals():
     ENGINES += ENGINES_EXTRA
+if 'AN_SERVES' in globals():
+    for e in ENGINES:
+        if e["name"] == "E-AN":
+            e["serves_properties"] = AN_SERVES
+for e in ENGINES:
+    if e["name"] == "E-LS":
+        e["serves_properties"] = ["C24","C27","C28","C29","C30","C36"]
 
 m = {
  "version": 1,
